@@ -8,6 +8,15 @@ var commonAssumptions = []string{
 }
 
 func init() {
+	register("C08", &propDef{
+		Run: runC08,
+		Info: propInfo{
+			Explanation: "Wake-up discipline of packetio.Buffer decided on the SSA/CFG of Write, Read and Close over all paths: the writer posts the token (non-blocking send on the capacity>=1 wake-up channel) on every success path, after accounting the packet, under the lock; a woken reader re-tests head/tail under the lock before any return; EOF only on empty-then-closed; the channel is closed exactly once under the lock with the closed flag, and every send is ordered with that close; a reader that takes a packet re-posts the token unless an edge establishes that the buffer is now empty or closed (baton pass: the necessary condition for 'no reader parked while a packet is buffered' with a capacity-1 token); the read deadline is tested before locking and waited on together with the token; lock balance. Fairness and timing are not decided.",
+			RuleText:    "one obligation per rule R1-R8 per anchored function; a site is a matched instruction (send, select, close, return, lock op); non-trivial = matched at least one site",
+			Assumptions: commonAssumptions,
+		},
+		Thorough: []LoadCfg{{GOOS: "js", GOARCH: "wasm"}, {GOOS: "linux", GOARCH: "amd64", Tags: []string{"packetioSizeHardlimit"}}},
+	})
 	register("C19", &propDef{
 		Run: runC19,
 		Info: propInfo{
